@@ -183,6 +183,7 @@ structure MonState where
   waiting : List (Nat × Slot × Loc × CtxKind × Option Int) := []
   failN : Nat := 0                          -- factory failures the harness has injected and not yet spent
   reported : List (Sc × CState) := []       -- what gRPC last reported for each connection (new ones: Idle)
+  standIn : List (String × Slot) := []      -- history record: the stand-in slot each bound key is using
   deriving Inhabited
 
 def MonState.start (c : Cfg) : MonState := { cfg := c }
@@ -391,6 +392,13 @@ def MonState.observe (m : MonState) (op : Op) (evs : List String) (post : Option
                   match lookup v.fallback key with
                   | some prev => if prev != sc then fails := fails ++ [("C08", "fallback_sticky")]
                   | none => pure ()
+                  -- the same, judged by the monitor's own record of where the key's calls went while the
+                  -- stand-in stayed READY and the home channel stayed not READY (also across a refresh
+                  -- of the stand-in, which keeps its slot)
+                  match lookup m.standIn key with
+                  | some prevSlot => if prevSlot != slot then fails := fails ++ [("C08", "fallback_sticky")]
+                  | none => pure ()
+                  m := { m with standIn := insert m.standIn key slot }
                   if (v.refs.all fun r => r.streamsCnt ≥ (c.wm : Int)) then hits := hits ++ ["pool.fallback_when_saturated"]
               | none => fails := fails ++ [("C01", "bound_pick_home")]
             | none =>
@@ -551,6 +559,16 @@ def MonState.observe (m : MonState) (op : Op) (evs : List String) (post : Option
     if !refreshBounded v.refreshingMap v.refs then fails := fails ++ [("C03", "refresh_bounded")]
     if m.started && !addrsCurrent m.scAddrs m.addrs v.scRefs v.refreshingMap then fails := fails ++ [("C20", "addrs_current")]
     if !detectorMatches v.refs m.detectors then fails := fails ++ [("C07", "detector_refines")]
+    -- a stand-in record lives while the stand-in slot's connection is READY, the key is bound and its
+    -- home channel is not READY
+    let readySlot (sl : Slot) : Bool := match v.refs[sl]? with
+      | some r => lookup v.scStates r.subConn == some .ready && (lookup v.scRefs r.subConn).isSome
+      | none => false
+    let boundNow := m.bound
+    let keep (p : String × Slot) : Bool :=
+      readySlot p.2 && (match lookup boundNow p.1 with | some home => !readySlot home | none => false)
+    m := { m with standIn := m.standIn.filter keep }
+    if !m.standIn.isEmpty then hits := hits ++ ["pool.stand_in_recorded"]
     if !v.refreshingMap.isEmpty then hits := hits ++ ["pool.refresh_in_flight"]
     if !v.fallback.isEmpty then hits := hits ++ ["pool.fallback_mapping_live"]
     if v.scRefs.length == c.max then hits := hits ++ ["pool.at_max_size"]
